@@ -58,11 +58,17 @@ func (f *File) Apply(filename string, src []byte) ([]byte, error) {
 
 		cl := engine.NewChangelog()
 
-		fout, err = c.Replace(d, cl)
+		out, modified, err := c.Apply(d, cl)
 		if err != nil {
 			retErr = errors.Join(retErr, err)
 			continue
 		}
+		if !modified {
+			// The replacement fits in none of the places that matched:
+			// this patch didn't modify the file either.
+			continue
+		}
+		fout = out
 
 		snap = snap.Diff(fout, cl)
 		fout.Comments = cleanupFilePos(f.fset.File(fout.Pos()), cl, fout.Comments)
